@@ -200,15 +200,19 @@ class PlayReady(DrmBase):
             default_keypair.KID.raw, raw=True)
         if custom_attributes is None:
             custom_attributes = []
+        try:
+            la_url = la_url.format(
+                cfgs=cfgs, default_kid=default_keypair.KID.hex,
+                kids=[a["kid"] for a in kids])
+        except (IndexError, KeyError, ValueError):
+            # not a usable template (e.g. a URL with other braces): use as given
+            pass
         context = {
             "customAttributes": custom_attributes,
             "default_kid": default_kid,
             "default_key": default_key,
             "kids": kids,
-            "la_url": la_url.format(cfgs=cfgs,
-                                    default_kid=default_keypair.KID.hex,
-                                    kids=[a["kid"] for a in kids]
-                                    )
+            "la_url": la_url,
         }
         context["checksum"] = self.generate_checksum(default_keypair)
         header_version = self.header_version
